@@ -71,6 +71,21 @@ def Re.noLF : Re → Bool
   | .group _ r => r.noLF
   | _ => true
 
+/-- the regex contains no text anchor (`\A`, `\z`, non-multiline `^` `$`) -/
+def Re.noTextAnchor : Re → Bool
+  | .bot => false
+  | .eot => false
+  | .cat a b => a.noTextAnchor && b.noTextAnchor
+  | .alt a b => a.noTextAnchor && b.noTextAnchor
+  | .star r _ => r.noTextAnchor
+  | .plus r _ => r.noTextAnchor
+  | .quest r _ => r.noTextAnchor
+  | .group _ r => r.noTextAnchor
+  | _ => true
+
+/-- empty, or beginning with a line feed: what may follow a line (and, reversed, precede it) -/
+def LFish (l : Bytes) : Prop := l = [] ∨ ∃ t, l = LF :: t
+
 /-- the regex contains no repetition (`*`, `+`) -/
 def Re.starFree : Re → Bool
   | .cat a b => a.starFree && b.starFree
